@@ -773,7 +773,12 @@ def to_hashable(  # noqa: C901, PLR0911, PLR0912
 
     # Handle numpy arrays
     if "numpy" in sys.modules and isinstance(obj, sys.modules["numpy"].ndarray):
-        return (m, tp, (obj.shape, obj.dtype.str, tuple(obj.flatten())))
+        flat = obj.flatten()
+        if obj.dtype.hasobject:  # elements are arbitrary Python objects, e.g., lists
+            data = _hashable_iterable(flat, fallback_to_pickle)
+        else:
+            data = tuple(flat)
+        return (m, tp, (obj.shape, obj.dtype.str, data))
 
     # Handle pandas Series and DataFrames
     if "pandas" in sys.modules:
